@@ -105,9 +105,9 @@ def ensure_build(theorems, thorough=False, log=print):
             apath = os.path.join(LEAN, '.lake', 'Audit.lean')
             open(apath, 'w').write(audit)
             rc2, out2 = sh(['lake', 'env', 'lean', apath])
-            for m in re.finditer(r"'([^']+)' depends on axioms: \[([^\]]*)\]", out2.replace('\n', ' ')):
+            for m in re.finditer(r"'(\S+)' depends on axioms: \[([^\]]*)\]", out2.replace('\n', ' ')):
                 res['axioms'][m.group(1)] = [a.strip() for a in m.group(2).split(',') if a.strip()]
-            for m in re.finditer(r"'([^']+)' does not depend on any axioms", out2):
+            for m in re.finditer(r"'(\S+)' does not depend on any axioms", out2):
                 res['axioms'][m.group(1)] = []
             res['audit_errors'] = [l for l in out2.split('\n') if 'error' in l][:20]
             json.dump({'key': key, 'axioms': res['axioms']}, open(cache, 'w'))
